@@ -58,7 +58,7 @@ class Result:
 _FINAL = re.compile(r"^(\d+) states generated, (\d+) distinct states found, (\d+) states left on queue")
 _DEPTH = re.compile(r"The depth of the complete state graph search is (\d+)")
 _INV = re.compile(r"Error: Invariant (\S+) is violated")
-_PROP = re.compile(r"Error: (?:Temporal properties were violated|Action property (\S+) is violated)")
+_PROP = re.compile(r"Error: (?:Temporal properties were violated|Temporal property (\S+) was violated|Action property (\S+) is violated)")
 _COV = re.compile(r"^<(\w+) line \d+, col \d+ to line \d+, col \d+ of module \w+>: (\d+):(\d+)")
 
 
@@ -122,7 +122,7 @@ def run(module, cfg_text, extra_modules=None, workers=8, args=(), env=None, time
                 res.violated = m.group(1)
             m = _PROP.search(line)
             if m:
-                res.violated = m.group(1) or "temporal"
+                res.violated = m.group(1) or m.group(2) or "temporal"
             if "Error: Deadlock reached" in line:
                 res.violated = "deadlock"
             if "Error: Assumption" in line or ("Assumption line" in line and "is false" in line):
